@@ -13,6 +13,8 @@ from vf.core import Violation, expect_raises, lib_call, run_hypothesis
 K = 256.0  # rounding margin for leaves (probe: worst observed ratio with K=1 was 1.0)
 EPS = bc.EPS
 CTOL = 1e-9 if not bd.shim.F32 else 2e-3  # composite (tree / flow) tolerance factor
+bc.PLANAR_TINY_F64 = 1e-4  # float64: a planar layer with |1 + s w.u_hat| in [1e-4, 1e-3] is ill- but not un-conditioned; the
+# conditioning-scaled tolerance handles it (a clamp of that denominator at 1e-3 - seeded change C01_E - hid behind the old guard)
 KAPPA_MAX = 1e-2 / (K * EPS)  # beyond this the rounding floor alone exceeds 1e-2: inconclusive
 
 
@@ -112,10 +114,12 @@ def check_roundtrip(s: bc.Subject, ctx, sharp: bool):
         ctx.inconcl("ill_conditioned_codomain")
     else:
         x2m, y2m = bc.amax(x2), bc.amax(y2)
+        # (the x2m term: evaluating the forward map rounds at the magnitude of its own argument, e.g. y = x + u*act(w.x+b)
+        # with |x| = 1500 and y = 0 - seen as a false alarm of the planar-band phase with tol_y built from |J||x| alone)
         if s.numinv:  # residual of the numerical inverse: |f(x') - y| <= 2 ||J|| tol
-            tol_y = (2 * nj2 * s.tol_inv + K * EPS * (1 + y2m + nj2 * (1 + x2m) + kappa2 * (1 + y2m))) * (1 if sharp else 100)
+            tol_y = (2 * nj2 * s.tol_inv + K * EPS * (1 + y2m + x2m + nj2 * (1 + x2m) + kappa2 * (1 + y2m))) * (1 if sharp else 100)
         elif sharp:
-            tol_y = K * EPS * (1 + y2m + nj2 * (1 + x2m) + kappa2 * (1 + y2m))
+            tol_y = K * EPS * (1 + y2m + x2m + nj2 * (1 + x2m) + kappa2 * (1 + y2m))
         else:
             tol_y = CTOL * (1 + max(M, x2m, y2m)) * (1 + nj2)
         err2 = bc.amax(y2b - y2) if np.all(np.isfinite(y2b)) else np.inf
@@ -220,7 +224,52 @@ def elementary_cases():
     return f()
 
 
+def planar_band_oracle(case, ctx):
+    """Leaky-relu Planar layers whose raw parameters are SOLVED so that 1 + w.u_hat = t for a drawn t in [2e-4, 0.3]:
+    ill-conditioned but far from singular in float64 (random perturbations reach t < 1e-3 in well under 1 % of cases).
+    Judged by the ordinary conditioning-scaled round trip."""
+    import math
+    import equinox as eqx
+    import jax.random as jr
+    from flowjax.bijections import Planar
+    d = int(case["dim"])
+    w = np.asarray(case["w"][:d], np.float64)
+    if np.linalg.norm(w) < 0.1:
+        w = w + 0.5
+    t = float(case["t"])
+    # constrained w.u_hat = m(w.u) = -1 + log(1 + softplus(w.u))  =>  w.u = softplus^-1(expm1(t))
+    sp = math.expm1(t)
+    wu = math.log(math.expm1(sp)) if sp < 30 else sp
+    perp = np.asarray(case["perp"][:d], np.float64)
+    perp = perp - (perp @ w) / (w @ w) * w
+    u = wu / (w @ w) * w + perp
+    obj = Planar(jr.PRNGKey(0), dim=d, negative_slope=float(case["slope"]))
+    obj = eqx.tree_at(lambda pl: pl.params, obj, jnp.asarray(np.concatenate([w, u, [float(case["b"])]]).astype(bd.FDT)))
+    x = np.asarray(case["x"][:d], bd.FDT)
+    s = bc.Subject("leaf", "Planar", obj, x, None, node=None, invertible=True, numinv=False, onto=True, pool=[])
+    s.yraw = case.get("yinp")
+    ctx.evaluated()
+    check_roundtrip(s, ctx, sharp=True)
+    ctx.hist("planar_band_decade", int(math.floor(math.log10(t))))
+    ctx.mark_nontrivial(case)
+
+
+def planar_band_cases():
+    from hypothesis import strategies as st
+    from vf import gen
+
+    @st.composite
+    def f(draw):
+        return {"kind": "planar_band", "dim": draw(st.integers(1, 3)), "w": draw(st.lists(st.floats(-2, 2), min_size=3, max_size=3)),
+                "perp": draw(st.lists(st.floats(-2, 2), min_size=3, max_size=3)), "b": draw(st.floats(-1, 1)),
+                "t": 10.0 ** draw(st.floats(-3.7, -0.5)), "slope": draw(st.sampled_from([0.1, 0.5, 0.9])),
+                "x": draw(st.lists(st.floats(-3, 3), min_size=3, max_size=3)), "yinp": draw(gen.inputs())}
+    return f()
+
+
 def oracle(case, ctx):
+    if case.get("kind") == "planar_band":
+        return planar_band_oracle(case, ctx)
     if case.get("kind") == "elementary":
         return elementary_oracle(case, ctx)
     ctx.evaluated()
@@ -282,6 +331,8 @@ def _with_y(strategy):
 def run(ctx):
     q = ctx.tier == "quick"
     run_hypothesis(ctx, elementary_cases(), oracle, 6 if q else 40, "C01-elementary")
+    if not bd.shim.F32:
+        run_hypothesis(ctx, planar_band_cases(), oracle, 25 if q else 250, "C01-planar-band")
     run_hypothesis(ctx, _with_y(bc.leaf_cases()), oracle, 110 if q else 1200, "C01-leaves")
     run_hypothesis(ctx, _with_y(bc.tree_cases(3, 8) if q else bc.tree_cases(4, 14)), oracle, 30 if q else 250,
                    "C01-trees")
